@@ -48,6 +48,12 @@ pub struct PanicRec {
 static PANICS: Mutex<Vec<(std::thread::ThreadId, PanicRec)>> = Mutex::new(Vec::new());
 static HOOK: Once = Once::new();
 
+/// where the sources of the code under test live ("/repo/"; a scratch worktree when a seeded change is evaluated off-tree)
+fn repo_prefix() -> &'static str {
+    static P: std::sync::OnceLock<String> = std::sync::OnceLock::new();
+    P.get_or_init(|| std::env::var("VERIF_REPO_PREFIX").unwrap_or_else(|_| "/repo/".to_owned()))
+}
+
 fn first_repo_frame(bt: &str) -> String {
     // backtrace text: "  NN: function\n             at file:line:col"; the release build carries line tables only,
     // so the function name is short and the file path identifies the place. Line numbers are left out on purpose.
@@ -55,7 +61,7 @@ fn first_repo_frame(bt: &str) -> String {
     for line in bt.lines() {
         let l = line.trim();
         if let Some(rest) = l.strip_prefix("at ") {
-            if let Some(path) = rest.strip_prefix("/repo/") {
+            if let Some(path) = rest.strip_prefix(repo_prefix()) {
                 let file = path.split(':').next().unwrap_or(path);
                 return format!("{file}#{func}");
             }
